@@ -31,6 +31,15 @@ with un-summed repeated entries), and "the caller's matrix is left unchanged" (s
 before/after every call).  scipy's result containers (`A + A.T`, `A + prior`, `A / 2.0`) are a
 measured table, re-measured on every run.
 
+Size-gated code path, correspondence-only: for sparse input with ≥ 1000 states
+`eigenspectrum`/`eq_probs` switch from LAPACK (`scipy.linalg.eig` on the densified matrix) to
+ARPACK (`eigs(…, which="LR")`, random start vector).  Nothing in the model depends on the size
+(the solver is the parameter of `C04_solver_contract`), so that path is covered only by the
+`large-sparse` family of `harness/props/c04.py`: 999/1000/1001/1024/1500/2048 states, periodic
+(period 2, 3, 4, 6), near-periodic, metastable-block and aperiodic chains in csr/csc/coo/lil/
+dok/bsr, `normalize` called repeatedly on the same matrix, populations compared with a direct
+sparse solve that certifies its own residual.
+
 Theorems marked "by construction of the model" are `rfl`-level: they state what the model
 does (which the correspondence check ties to the code), not a consequence of it.
 
